@@ -202,6 +202,7 @@ class Index(object):
     def _load(self):
         if not os.path.isdir(self.root):
             raise AnalysisError("package directory %s missing" % self.root)
+        parsed = []
         for dirpath, dirnames, filenames in os.walk(self.root):
             dirnames.sort()
             for fn in sorted(filenames):
@@ -218,12 +219,16 @@ class Index(object):
                     tree = ast.parse(src, filename=path)
                 except (SyntaxError, UnicodeDecodeError) as e:
                     raise AnalysisError("cannot parse %s: %s" % (path, e))
-                if not os.environ.get("TLSVERIF_NO_NORMALIZE"):
-                    from .normalize import normalize_module
-                    normalize_module(tree, rel)
-                m = Module(rel, path, src, tree)
-                self.modules[rel] = m
-                self._index_module(m)
+                parsed.append((rel, path, src, tree))
+        if not os.environ.get("TLSVERIF_NO_NORMALIZE"):
+            from .normalize import normalize_module, signatures
+            sigs = signatures([t for _r, _p, _s, t in parsed])
+            for rel, path, src, tree in parsed:
+                normalize_module(tree, rel, sigs)
+        for rel, path, src, tree in parsed:
+            m = Module(rel, path, src, tree)
+            self.modules[rel] = m
+            self._index_module(m)
 
     def _index_module(self, m):
         def add_class(node, outer, prefix):
